@@ -1127,7 +1127,7 @@ def rule_workermisc(text):
     """flush_worker_shards one-offs"""
     apps = []
     table = [
-        (r"for\s+(\w+)\s+in\s+\(\s*([\w.]+)\s*\.\.\s*([\w.]+\(\))\s*\)\s*\.\s*step_by\s*\(\s*([\w.]+)\s*\)\s*\{",
+        (r"for\s+(\w+)\s+in\s+\(\s*([\w.]+(?:\s*[+\-*]\s*[\w.]+)?)\s*\.\.\s*([\w.]+\(\))\s*\)\s*\.\s*step_by\s*\(\s*([\w.]+(?:\s*[+\-*]\s*[\w.]+)?)\s*\)\s*\{",
          r"let mut \1_next_ = \2; while \1_next_ < \3 { let \1 = \1_next_; \1_next_ = step_next(\1_next_, \4);", "R-stepby",
          "definition of (a..b).step_by(s) as a counting loop (Verus for-loops have no `continue`)"),
         (r"let\s+mut\s+(\w+)\s*=\s*\1\s*\.\s*into_iter\s*\(\s*\)\s*;", r"let mut \1 = VecQueue::new(\1);", "R-iterq", "shim: a by-value Vec iterator = a queue of the remaining elements"),
@@ -1803,3 +1803,52 @@ def rule_shardmisc(text):
             apps.append(_app(rname, text, mm.start(), mm.end(), new, why))
             text = text[:mm.start()] + new + text[mm.end():]
     return text, apps
+
+
+def rule_startmisc(text):
+    """WriteBuffer::start_workers and its periodic coordinator closure (write_buffer.rs)"""
+    apps = []
+    ws = r"\s*"
+    ex = r"[\w.]+(?:\s*[+\-*]\s*[\w.]+)?"
+    table = [
+        (r"(\w+)" + ws + r"\." + ws + r"clamp" + ws + r"\(" + ws + r"(" + ex + r")" + ws + r"," + ws + r"(" + ex + r")" + ws + r"\)", r"clamp_usize(\1, \2, \3)", "R-clamp",
+         "shim with a verified body: usize::clamp(lo, hi) (std panics when lo > hi: the shim's precondition)"),
+        (r"for" + ws + r"_" + ws + r"in" + ws + r"0" + ws + r"\.\." + ws + r"(" + ex + r")" + ws + r"\{", r"for _i in 0..\1 {", "R-wild", "`_` loop pattern named"),
+        (r"let" + ws + r"mut" + ws + r"receivers" + ws + r"=" + ws + r"Vec" + ws + r"::" + ws + r"new\(\)" + ws + r";", r"let mut receivers: Vec<WorkerReceiver> = Vec::new();", "R-annot", "type annotation only (Verus needs the element type before the first push)"),
+        (r"for" + ws + r"\(" + ws + r"(\w+)" + ws + r"," + ws + r"(\w+)" + ws + r"\)" + ws + r"in" + ws + r"(\w+)" + ws + r"\." + ws + r"into_iter\(\)" + ws + r"\." + ws + r"enumerate\(\)" + ws + r"\{",
+         r"let mut \3_q_ = EnumQueue::new(\3); while let Some((\1, \2)) = \3_q_.next_indexed() {", "R-enumq",
+         "shim: by-value iteration of a Vec with enumerate() = popping its elements front to back, numbered from 0"),
+        (r"thread" + ws + r"::" + ws + r"spawn" + ws + r"\(" + ws + r"move" + ws + r"\|\|" + ws + r"\{" + ws + r"write_buffer_worker" + ws + r"\(" + ws + r"(\w+)" + ws + r"," + ws + r"(\w+)" + ws + r"\)" + ws + r";" + ws + r"\}" + ws + r"\)",
+         r"spawn_worker(\1, \2)", "R-spawn", "shim: a thread running write_buffer_worker(ctx, rx) (the worker's own contract is unit worker_loop)"),
+        (r"self" + ws + r"\." + ws + r"worker_handles" + ws + r"\." + ws + r"get_mut\(\)" + ws + r"\." + ws + r"push" + ws + r"\(" + ws + r"(\w+)" + ws + r"\)", r"self.worker_handles.push_handle(\1)", "R-handle",
+         "Mutex::get_mut().push(h) on the handle list"),
+        (r"\*" + ws + r"self" + ws + r"\." + ws + r"periodic_flush_handle" + ws + r"\." + ws + r"get_mut\(\)" + ws + r"=" + ws + r"([^;]+);", r"self.periodic_flush_handle.set_handle(\1);", "R-handle",
+         "assignment through Mutex::get_mut()"),
+        (r"Arc" + ws + r"::" + ws + r"clone" + ws + r"\(" + ws + r"&" + ws + r"self" + ws + r"\." + ws + r"retirement_queue" + ws + r"\)", r"self.retirement_queue.clone()", "R-handle", "Arc::clone(&x) = x.clone()"),
+        (r"self" + ws + r"\." + ws + r"worker_channels" + ws + r"\." + ws + r"clone\(\)", r"clone_senders(&self.worker_channels)", "R-clone", "shim: Vec<Sender>::clone = element-wise clone (same channels)"),
+        (r"let" + ws + r"interval" + ws + r"=" + ws + r"WRITE_BUFFER_FLUSH_INTERVAL" + ws + r";", r"let interval = flush_interval();", "R-backoff", "the flush interval is an opaque Duration (real time is not modelled)"),
+        (r"thread" + ws + r"::" + ws + r"sleep" + ws + r"\(" + ws + r"interval" + ws + r"\)", r"thread_sleep(&interval)", "R-backoff", "sleep has no effect on the state"),
+        (r"for" + ws + r"\(" + ws + r"(\w+)" + ws + r"," + ws + r"(\w+)" + ws + r"\)" + ws + r"in" + ws + r"(\w+)" + ws + r"\." + ws + r"iter\(\)" + ws + r"\." + ws + r"enumerate\(\)" + ws + r"\{",
+         r"for \1 in 0..\3.len() { let \2 = &\3[\1];", "R-for", "definition of iter().enumerate() over a Vec"),
+        (r"\(" + ws + r"(" + ex + r")" + ws + r"\.\." + ws + r"sharded_buffers" + ws + r"\." + ws + r"len\(\)" + ws + r"\)" + ws + r"\." + ws + r"step_by" + ws + r"\(" + ws + r"(" + ex + r"(?:\(\))?)" + ws + r"\)" + ws + r"\." + ws + r"any" + ws
+         + r"\(" + ws + r"\|" + ws + r"(\w+)" + ws + r"\|" + ws + r"\{?" + ws + r"sharded_buffers" + ws + r"\[" + ws + r"\3" + ws + r"\]" + ws + r"\." + ws + r"count" + ws + r"\." + ws + r"load" + ws + r"\(" + ws + r"Ordering" + ws + r"::" + ws + r"\w+" + ws + r"\)" + ws + r">" + ws + r"0" + ws + r"\}?" + ws + r"\)",
+         r"stride_any_nonempty(&sharded_buffers, \1, \2)", "R-strideany",
+         "shim: (a..n).step_by(s).any(|i| bufs[i].count > 0) = some shard a + j*s below n has a non-zero counter (start and step expressions verbatim)"),
+    ]
+    for pat, rep, rname, why in table:
+        n = 0
+        while n < 8:
+            n += 1
+            mm = re.search(pat, text)
+            if not mm:
+                break
+            new = mm.expand(rep)
+            if new == text[mm.start():mm.end()]:
+                break
+            apps.append(_app(rname, text, mm.start(), mm.end(), new, why))
+            text = text[:mm.start()] + new + text[mm.end():]
+    return text, apps
+
+
+def rule_sig_start(text):
+    return text, []
